@@ -124,13 +124,136 @@ func (c *c01QUICConn) CloseWithError(code quic.ApplicationErrorCode, _ string) e
 // server hands to the DNSCrypt library for encryption.
 type c01CryptRW struct {
 	local, remote net.Addr
-	msgs          []*dns.Msg
+	// packed are the messages as the library packs them for encryption, at
+	// the time of the call (dnscrypt/v2 Server.encrypt).
+	packed  [][]byte
+	packErr error
 }
 
 func (w *c01CryptRW) LocalAddr() net.Addr  { return w.local }
 func (w *c01CryptRW) RemoteAddr() net.Addr { return w.remote }
 func (w *c01CryptRW) WriteMsg(m *dns.Msg) error {
-	w.msgs = append(w.msgs, m)
+	b, err := m.Pack()
+	if err != nil {
+		w.packErr = err
+
+		return err
+	}
+	w.packed = append(w.packed, b)
+
+	return nil
+}
+
+// ---- Poisoning disposer -----------------------------------------------------------------
+
+// c01PoisonDisposer is the Disposer of every tier B server object.  The
+// contract of [Disposer] is that a disposed message is not used any more (in
+// production its parts go back to the cloner's pools and are overwritten by
+// whichever request takes them next).  To make a use after dispose visible
+// without concurrency, Dispose overwrites the message in place: on a tree that
+// honours the contract nothing observable changes; on a tree that disposes a
+// response before it has been normalized, packed and written, the client gets
+// the poison (another ID, question and rcode, no records).  A second Dispose
+// of a message that is still poisoned is counted as a double dispose (in
+// production: a double Put, two later requests get the same message).
+type c01PoisonDisposer struct {
+	mu sync.Mutex
+	// poisoned holds the disposed messages of the current case; holding them
+	// keeps their addresses from being reused.
+	poisoned map[*dns.Msg]struct{}
+	doubles  int
+	disposed int
+}
+
+const c01PoisonName = "poisoned.by.disposer.invalid."
+
+func c01PoisonRR(rr dns.RR) {
+	if rr == nil {
+		return
+	}
+	h := rr.Header()
+	h.Name, h.Ttl = c01PoisonName, 0xdead
+	switch v := rr.(type) {
+	case *dns.A:
+		for i := range v.A {
+			v.A[i] = 0xee
+		}
+	case *dns.AAAA:
+		for i := range v.AAAA {
+			v.AAAA[i] = 0xee
+		}
+	case *dns.TXT:
+		for i := range v.Txt {
+			v.Txt[i] = "poisoned"
+		}
+		v.Txt = v.Txt[:0]
+	case *dns.SOA:
+		v.Ns, v.Mbox, v.Serial, v.Minttl = c01PoisonName, c01PoisonName, 0xdead, 0xdead
+	case *dns.NS:
+		v.Ns = c01PoisonName
+	case *dns.CNAME:
+		v.Target = c01PoisonName
+	case *dns.HTTPS:
+		v.Target, v.Priority, v.Value = c01PoisonName, 0xdead, v.Value[:0]
+	case *dns.SVCB:
+		v.Target, v.Priority, v.Value = c01PoisonName, 0xdead, v.Value[:0]
+	case *dns.OPT:
+		for i := range v.Option {
+			v.Option[i] = nil
+		}
+		v.Option = v.Option[:0]
+		h.Name, h.Class, h.Ttl = ".", 0, 0
+	}
+}
+
+// Dispose implements the [Disposer] interface for *c01PoisonDisposer.
+func (d *c01PoisonDisposer) Dispose(m *dns.Msg) {
+	if m == nil {
+		return
+	}
+	d.mu.Lock()
+	defer d.mu.Unlock()
+	d.disposed++
+	if _, ok := d.poisoned[m]; ok {
+		d.doubles++
+
+		return
+	}
+	d.poisoned[m] = struct{}{}
+	m.Id ^= 0x5a5a
+	m.Rcode = dns.RcodeRefused
+	m.Response, m.Truncated = false, false
+	for i := range m.Question {
+		m.Question[i] = dns.Question{Name: c01PoisonName, Qtype: dns.TypeNULL, Qclass: dns.ClassNONE}
+	}
+	for _, sec := range [][]dns.RR{m.Answer, m.Ns, m.Extra} {
+		for i, rr := range sec {
+			c01PoisonRR(rr)
+			sec[i] = nil
+		}
+	}
+	m.Question, m.Answer, m.Ns, m.Extra = m.Question[:0], m.Answer[:0], m.Ns[:0], m.Extra[:0]
+}
+
+// take returns the number of double disposes since the last call and forgets
+// the poisoned messages of the exchanges so far.
+func (d *c01PoisonDisposer) take() (doubles int) {
+	d.mu.Lock()
+	defer d.mu.Unlock()
+	doubles, d.doubles = d.doubles, 0
+	clear(d.poisoned)
+
+	return doubles
+}
+
+var c01Disposer = &c01PoisonDisposer{poisoned: map[*dns.Msg]struct{}{}}
+
+// c01DisposeFindings reports the double disposes of the exchange that was
+// just made on transport t.
+func c01DisposeFindings(t string) []vrt.Finding {
+	if n := c01Disposer.take(); n > 0 {
+		return vrt.F(t+"/double-dispose", "%d response(s) handed to the Disposer twice", n)
+	}
 
 	return nil
 }
@@ -155,7 +278,7 @@ func c01GetRig() *c01Rig {
 	}
 	rig := &c01Rig{metrics: &c01Metrics{}}
 	base := func(name string) ConfigBase {
-		return ConfigBase{Name: name, Addr: "192.0.2.53:53", Handler: c01Handler{}, Metrics: rig.metrics}
+		return ConfigBase{Name: name, Addr: "192.0.2.53:53", Handler: c01Handler{}, Metrics: rig.metrics, Disposer: c01Disposer}
 	}
 	rig.plain = NewServerDNS(ConfigDNS{ConfigBase: base("c01-dns"), MaxUDPRespSize: dns.MaxMsgSize})
 	rig.dot = NewServerTLS(ConfigTLS{ConfigDNS: ConfigDNS{ConfigBase: base("c01-dot")}}).ServerDNS
@@ -446,15 +569,14 @@ func c01Crypt(rig *c01Rig, udp bool, wire []byte) (obs c01TObs) {
 	if err != nil && obs.Panicked == "" {
 		_ = rw.WriteMsg((&dns.Msg{}).SetRcode(r, dns.RcodeServerFailure))
 	}
-	for _, m := range rw.msgs {
-		b, perr := m.Pack()
-		if perr != nil {
-			obs.Garbled = "message handed to the dnscrypt library does not pack: " + perr.Error()
+	if rw.packErr != nil {
+		obs.Garbled = "message handed to the dnscrypt library does not pack: " + rw.packErr.Error()
 
-			return obs
-		}
+		return obs
+	}
+	for _, b := range rw.packed {
 		snap := &dns.Msg{}
-		if perr = snap.Unpack(b); perr != nil {
+		if perr := snap.Unpack(b); perr != nil {
 			obs.Garbled = "message handed to the dnscrypt library does not decode: " + perr.Error()
 
 			return obs
@@ -719,14 +841,15 @@ func c01CheckQueryOn(r *vrt.Run, t string, wire []byte, req *dns.Msg, res c01Res
 	q := req.Question[0]
 	want := c01TupleOfResult(res)
 	class := func(s string) { r.Class("query:" + t + " " + res.Kind + " -> " + s) }
+	fs = append(fs, c01DisposeFindings(t)...)
 	if obs.Panicked != "" {
-		return vrt.F(t+"/panic-escapes", "query %q %s: %s", q.Name, res.Kind, obs.Panicked)
+		return append(fs, vrt.F(t+"/panic-escapes", "query %q %s: %s", q.Name, res.Kind, obs.Panicked)...)
 	}
 	if obs.Garbled != "" {
-		return vrt.F(t+"/garbled-stream", "query %q: %s", q.Name, obs.Garbled)
+		return append(fs, vrt.F(t+"/garbled-stream", "query %q: %s", q.Name, obs.Garbled)...)
 	}
 	if len(obs.Msgs) > 1 {
-		return vrt.F(t+"/two-responses", "query %q: %d responses: %s | %s", q.Name, len(obs.Msgs), vdns.Canon(obs.Msgs[0], true), vdns.Canon(obs.Msgs[1], true))
+		return append(fs, vrt.F(t+"/two-responses", "query %q: %d responses: %s | %s", q.Name, len(obs.Msgs), vdns.Canon(obs.Msgs[0], true), vdns.Canon(obs.Msgs[1], true))...)
 	}
 	keepAlive := false
 	var adv uint16
@@ -1157,6 +1280,7 @@ func c01RunBad(r *vrt.Run, c c01BadCase) (fs []vrt.Finding) {
 // c01CheckBadWire judges the treatment of a DNS message that arrived intact
 // in the transport's framing but is not an acceptable query.
 func c01CheckBadWire(r *vrt.Run, t, what string, wire []byte, obs c01TObs) (fs []vrt.Finding) {
+	fs = append(fs, c01DisposeFindings(t)...)
 	sp := c01Classify(wire)
 	got := c01Treatment(sp, obs.Msgs)
 	allowed := map[string]bool{}
@@ -1217,6 +1341,7 @@ func c01CheckBadWire(r *vrt.Run, t, what string, wire []byte, obs c01TObs) (fs [
 // inputs from which a well-formed query can still be recovered (wire != nil):
 // a normal answer to exactly that query is tolerated.
 func c01CheckBadFraming(r *vrt.Run, t, what string, wire []byte, goodReq *dns.Msg, obs c01TObs) (fs []vrt.Finding) {
+	fs = append(fs, c01DisposeFindings(t)...)
 	switch {
 	case obs.JSON != nil:
 		st := -1
@@ -1390,4 +1515,6 @@ func c01TierB(r *vrt.Run) {
 			}
 		},
 		func(c c01PanicCase) []vrt.Finding { return c01RunPanic(r, c) })
+	// Vacuity guard for the poisoning disposer.
+	r.Count("responses_handed_to_disposer", c01Disposer.disposed)
 }
